@@ -77,6 +77,9 @@ fn expect_slider(piece: Piece, sq: u8, occ: u64) -> u64 {
 }
 
 fn check_slider(lk: &LookupTable, rep: &Report, piece: Piece, sq: u8, occ: u64) -> bool {
+    if rep.saturated() {
+        return false;
+    }
     let want = expect_slider(piece, sq, occ);
     let r = slider(lk, piece, sq, occ);
     let before: Vec<(Piece, u8, u64)> = TL_HIST.with(|h| h.borrow().iter().cloned().collect());
